@@ -1,3 +1,5 @@
+#[cfg(mos_verif_threads)]
+use mos_simrt::std_shim as std;
 pub use binary_writer::*;
 pub use listing::*;
 pub use vice::*;
